@@ -5,7 +5,7 @@ W=$(mktemp -d /tmp/mutwt-XXXX)
 rmdir $W
 git -C /repo worktree add -q --detach $W main || exit 3
 if ! git -C $W apply $P 2>/dev/null && ! git -C $W apply --3way $P; then echo "PATCH DOES NOT APPLY"; git -C /repo worktree remove --force $W; exit 3; fi
-cd /verif && VERIF_REPO=$W ./bin/check $C $T > $W.log 2>&1
+cd /verif && VERIF_EVIDENCE_DIR=/tmp/mutant-evidence VERIF_REPO=$W ./bin/check $C $T > $W.log 2>&1
 rc=$?
 grep -E "VIOLATION|KNOWN-FINDING|SPEC-DRIFT|INFRA|done rc" $W.log | cut -c1-300
 rm -f /verif/replays/$C-*.json
